@@ -705,6 +705,118 @@ def judge(story):
     return steps, predicate(story, steps)
 
 
+def handler_census(cli):
+    conn = priv(cli, "_connection")
+    return {k.__name__: len(v) for k, v in priv(conn, "_message_handlers").items() if len(v)}
+
+
+def refused_operation_probe():
+    """Operations called with a handle / address the wire cannot carry (a float, a negative or too large number, text): whichever way
+    such a call ends, once it has ended nothing of it is subscribed any more. Returns a list of problems."""
+    async def go(loop):
+        net = simnet.Net(loop)
+        problems = []
+        with net.patched():
+            cli, tr = await simnet.connected_client(loop, net)
+            base = handler_census(cli)
+            bad_values = [42.5, 42.0, 1 << 32, -1, "x", 1 << 70]
+            ops = {
+                "bluetooth_gatt_start_notify": lambda a, h: cli.bluetooth_gatt_start_notify(a, h, lambda *x: None, timeout=2.0),
+                "bluetooth_gatt_read": lambda a, h: cli.bluetooth_gatt_read(a, h, timeout=2.0),
+                "bluetooth_gatt_write": lambda a, h: cli.bluetooth_gatt_write(a, h, b"\x01", True, timeout=2.0),
+                "bluetooth_gatt_read_descriptor": lambda a, h: cli.bluetooth_gatt_read_descriptor(a, h, timeout=2.0),
+                "bluetooth_gatt_write_descriptor": lambda a, h: cli.bluetooth_gatt_write_descriptor(a, h, b"\x01", timeout=2.0, wait_for_response=True),
+            }
+            for name, mk in ops.items():
+                for which in ("handle", "address"):
+                    for bv in bad_values:
+                        a, h = (A1, bv) if which == "handle" else (bv, 7)
+                        try:
+                            t = asyncio.ensure_future(mk(a, h))
+                        except Exception:  # noqa: BLE001
+                            continue
+                        await simnet.drain(loop)
+                        if not t.done():
+                            await simnet.advance(loop, by=3.0)
+                        if not t.done():
+                            t.cancel()
+                            await simnet.drain(loop)
+                        outcome = "cancelled" if t.cancelled() else "ok" if t.exception() is None else type(t.exception()).__name__
+                        if outcome == "ok" and name == "bluetooth_gatt_start_notify":
+                            t.result()[1]()
+                        left = handler_census(cli)
+                        if left != base:
+                            extra = {k: v - base.get(k, 0) for k, v in left.items() if v != base.get(k, 0)}
+                            problems.append(f"{name}({which}={bv!r}) ended with {outcome} and left handlers subscribed: {extra}")
+                            base = left
+            await cli.disconnect(force=True)
+            await simnet.drain(loop)
+        return problems
+    return simnet.run(go)
+
+
+def self_unsubscribe_probe(kind):
+    """The only subscriber of a message type removes itself from inside its callback - a one-shot notification ('notify'), or the
+    connection-state callback of a peripheral that disconnected ('connstate') - while a read on another handle and a write on another
+    address are pending, their responses right behind it in the same read. Each of those completes with its own result and the
+    session stays up. Returns a list of problems."""
+    async def go(loop):
+        from aioesphomeapi import api_pb2 as pb
+        net = simnet.Net(loop)
+        problems = []
+        with net.patched():
+            cli, tr = await simnet.connected_client(loop, net)
+            got = []
+            box = {}
+            if kind == "notify":
+                def on_notify(handle, data):
+                    got.append(bytes(data))
+                    box["remove"]()
+                t = asyncio.ensure_future(cli.bluetooth_gatt_start_notify(A1, 1, on_notify, timeout=5.0))
+                await simnet.drain(loop)
+                tr.feed(simnet.plain_msg(pb.BluetoothGATTNotifyResponse(address=A1, handle=1)))
+                await simnet.drain(loop)
+                box["remove"] = (await t)[1]
+                first = pb.BluetoothGATTNotifyDataResponse(address=A1, handle=1, data=b"one-shot")
+            else:
+                def on_state(connected, mtu, error):
+                    got.append(connected)
+                    if not connected:
+                        box["unsub"]()
+                t = asyncio.ensure_future(cli.bluetooth_device_connect(A1, on_state, timeout=5.0))
+                await simnet.drain(loop)
+                tr.feed(simnet.plain_msg(pb.BluetoothDeviceConnectionResponse(address=A1, connected=True, mtu=23)))
+                await simnet.drain(loop)
+                box["unsub"] = await t
+                first = pb.BluetoothDeviceConnectionResponse(address=A1, connected=False, error=19)
+            rd = asyncio.ensure_future(cli.bluetooth_gatt_read(A2, 2, timeout=5.0))
+            wr = asyncio.ensure_future(cli.bluetooth_gatt_write(A2, 3, b"\x01", True, timeout=5.0))
+            await simnet.drain(loop)
+            r = tr.feed(simnet.plain_msg(first) + simnet.plain_msg(pb.BluetoothGATTReadResponse(address=A2, handle=2, data=b"r"))
+                        + simnet.plain_msg(pb.BluetoothGATTWriteResponse(address=A2, handle=3)))
+            await simnet.drain(loop)
+            if isinstance(r, BaseException):
+                problems.append(f"{type(r).__name__}({r}) escaped from data_received")
+            for name, t2, want in (("read(A2, 2)", rd, b"r"), ("write(A2, 3)", wr, None)):
+                if not t2.done():
+                    problems.append(f"{name} still pending although its response arrived")
+                    t2.cancel()
+                elif t2.exception() is not None:
+                    problems.append(f"{name} failed with {type(t2.exception()).__name__}: {str(t2.exception())[:60]}")
+                elif want is not None and bytes(t2.result()) != want:
+                    problems.append(f"{name} returned {t2.result()!r}")
+            if len(got) != (1 if kind == "notify" else 2):
+                problems.append(f"the self-removing callback was invoked with {got}")
+            conn = priv(cli, "_connection")
+            if conn is None or not conn.is_connected:
+                problems.append("the session did not survive")
+            else:
+                await cli.disconnect(force=True)
+            await simnet.drain(loop)
+        return problems
+    return simnet.run(go)
+
+
 def run(rep, tier, seed):
     rng = random.Random(seed)
     rep.coverage["rule"] = (
@@ -751,6 +863,18 @@ def run(rep, tier, seed):
         diff = compare(story, steps, mline)
         if diff is not None:
             disagreements.append({"story": story, "difference": diff[1]})
+    problems = refused_operation_probe()
+    rep.case(("refused-operations",), True, sample={"refused_operations": problems[:3]})
+    rep.bump("probe:refused-operations")
+    if problems:
+        rep.violation("C16/left-subscribed", f"{problems[0]}; {len(problems)} such call(s): a finished operation leaves nothing subscribed", {"kind": "refused-operations"})
+    for kind in ("notify", "connstate"):
+        problems = self_unsubscribe_probe(kind)
+        rep.case(("self-unsubscribe", kind), True, sample={"self_unsubscribe": kind, "problems": problems[:3]})
+        rep.bump("probe:self-unsubscribe")
+        if problems:
+            rep.violation("C16/cross-talk", f"the only {'notify-data' if kind == 'notify' else 'connection-state'} subscriber removes itself from inside its callback while a read on another "
+                          f"handle and a write on another address are pending (responses in the same read): {problems[0]}; {len(problems)} problem(s)", {"kind": "self-unsubscribe", "which": kind})
     rep.coverage["disagreements"] = len(disagreements)
     if disagreements and not rep.violations:
         d = disagreements[0]
@@ -772,6 +896,14 @@ def replay(path):
     common.setup_impl_path()
     load_consts()
     d = json.loads(open(path).read())["replay"]
+    if d.get("kind") == "refused-operations":
+        problems = refused_operation_probe()
+        print(problems)
+        return 1 if problems else 0
+    if d.get("kind") == "self-unsubscribe":
+        problems = self_unsubscribe_probe(d["which"])
+        print(problems)
+        return 1 if problems else 0
     story = [tuple(tuple(x) if isinstance(x, list) and x and not isinstance(x[0], list) else x for x in s) for s in d["story"]]
     story = [(s[0], [tuple(m) for m in s[1]]) if s[0] == "feed" else s for s in story]
     steps = run_story(story)
